@@ -6,6 +6,7 @@ import (
 	"reflect"
 	"strings"
 	"sync"
+	"sync/atomic"
 	"time"
 
 	"github.com/remieven/ysgo/verifx/internal/explore"
@@ -18,7 +19,7 @@ func init() {
 		Meta: report.Meta{
 			Property: "C16",
 			Rule: "Go function types built with reflect.FuncOf over the type alphabet {int, int8, int16, int32, int64, uint, float32, float64, bool, string, named variants of int / float64 / string / bool, struct{}, []int, error, a concrete error type, chan error, <-chan error, chan int}: " +
-				"FP: every parameter list of 0-2 types plus optional variadic tail x 3 result shapes; FR: every result list of 0-2 types x 2 parameter shapes; CP / CR: the same for commands (results none / error / channel shapes); NF: non-function values {nil, 0, \"f\", struct{}{}, a channel, a pointer to a function}; " +
+				"FP: every parameter list of 0-2 types plus optional variadic tail x 3 result shapes; FR: every result list of 0-2 types x 2 parameter shapes; CP / CR: the same for commands (results none / error / channel shapes); AB: a converted command abandoned by RestoreAt while its handler runs, then executed again (each call reports its own outcome); NF: non-function values {nil, 0, \"f\", struct{}{}, a channel, a pointer to a function}; " +
 				"each registered through ConvertAndAddFunction / ConvertAndAddCommand with a reflect.MakeFunc probe; for every accepted registration every argument list of length 0-3 (quick) / 0-4 (thorough) over {number 3.7, number -2, number 5000000000 (beyond 32 bits; only compared for parameter kinds it fits), boolean, string} is sent through real script calls (<<call f(..)>>, {f(..)}, <<cmd ..>>); " +
 				"oracle (implications only): registration never panics; non-functions and signatures with a parameter or result outside the bridgeable kinds are refused; if accepted, a call never panics, a count / type mismatch is an error, a matching call delivers the Go conversion of each script value to the declared type and the result (or error) comes back converted; " +
 				"a case is one (signature, argument list, call form); non-trivial = accepted signature",
@@ -724,6 +725,95 @@ func runC16(ctx *report.Ctx) {
 			return
 		}
 		testCommand(c, "CR", reflect.FuncOf([]reflect.Type{reflect.TypeOf(myString(""))}, out, false), failing)
+	})
+
+	// AB: results are per call: a converted command still running when the host abandons it (RestoreAt), then
+	// the same command executed again - the second call must report its own outcome, not the abandoned one's.
+	// (Free-running goroutines: on a correct bridge the second call is pending whatever the timing, because its
+	// handler is held by a gate; the waiting below only gives a wrong bridge the time to show itself.)
+	part(ctx, "AB", -1, func(c *explore.Chooser) {
+		shape := c.Choose(3, "shape")
+		if !c.Mine() {
+			return
+		}
+		script := "title: A\n---\nL0\n<<cmd 1 true>>\nL1\n===\n"
+		r, err, pan := yc.NewReal([]string{script}, "abc", nil)
+		if err != nil || pan != "" {
+			ctx.HarnessError("C16 AB: %v %s", err, pan)
+			return
+		}
+		gates := []chan struct{}{nil, make(chan struct{}), make(chan struct{})}
+		started := make(chan int, 4)
+		returned := make(chan int, 4)
+		var calls int32
+		body := func() error {
+			n := int(atomic.AddInt32(&calls, 1))
+			started <- n
+			if n < len(gates) {
+				<-gates[n]
+			}
+			returned <- n
+			if shape == 2 {
+				return errProbe
+			}
+			return nil
+		}
+		switch shape {
+		case 0:
+			r.DR.ConvertAndAddCommand("cmd", func(i int, b bool) { body() })
+		default:
+			r.DR.ConvertAndAddCommand("cmd", func(i int, b bool) error { return body() })
+		}
+		w := fmt.Sprintf("converted command (%s) abandoned by RestoreAt while running, then executed again", []string{"func(int, bool)", "func(int, bool) error returning nil", "func(int, bool) error returning an error"}[shape])
+		ctx.Current("AB: " + w)
+		snap := r.DR.Snapshot()
+		waitFor := func(ch chan int) bool {
+			select {
+			case <-ch:
+				return true
+			case <-time.After(10 * time.Second):
+				return false
+			}
+		}
+		ctx.AddEvals(1, 1)
+		ctx.AddStates(1)
+		if o := r.Next(0); o.K != yc.OLine {
+			ctx.HarnessError("C16 AB: expected L0, got %s", o.String())
+			return
+		}
+		o := r.Next(0)
+		if !o.Waiting || !waitFor(started) {
+			close(gates[1])
+			close(gates[2])
+			ctx.HarnessError("C16 AB: the gated command is not pending: %s", o.String())
+			return
+		}
+		if err := r.DR.RestoreAt(snap); err != nil {
+			ctx.HarnessError("C16 AB: RestoreAt: %v", err)
+		}
+		close(gates[1]) // the abandoned call finishes now
+		waitFor(returned)
+		time.Sleep(30 * time.Millisecond) // lets the bridge deliver the abandoned call's outcome wherever it delivers it
+		r.Next(0)                         // L0 again
+		o = r.Next(0)                     // second execution: its handler is held by gate 2
+		stale := !o.Waiting
+		close(gates[2])
+		if stale {
+			report1(c, "AB", "stale-result", w, "the second execution of the command was reported complete ("+o.String()+") while its handler was still held: it received the outcome of the abandoned execution")
+			return
+		}
+		waitFor(returned)
+		deadline := time.Now().Add(10 * time.Second)
+		for o = r.Next(0); o.Waiting && time.Now().Before(deadline); o = r.Next(0) {
+			time.Sleep(50 * time.Microsecond)
+		}
+		if shape == 2 {
+			if o.K != yc.OError || o.Waiting {
+				report1(c, "AB", "result-error", w, "the error of the second execution did not come back: "+o.String())
+			}
+		} else if o.K != yc.OLine || o.Text != "L1" {
+			report1(c, "AB", "result-error", w, "after the second execution expected L1, got "+o.String())
+		}
 	})
 
 	// NF: non-function values
